@@ -318,7 +318,41 @@ def oracle_kernel_basis_zero_rows(rng):
     return None
 
 
+def oracle_partially_used_variable(rng):
+    """the coefficient vector is built from SOME components of a user Variable (an unused component strictly between used ones): the values the solved
+    constraint exposes (c, AGE vectors) are those of the components it was built from, and they form a certificate"""
+    import sageopt.coniclifts as cl
+    with warnings.catch_warnings():
+        warnings.simplefilter('ignore')
+        for gap in (1, 2):
+            p = cl.Variable(shape=(3 + gap,), name='pu_p_%d' % gap)
+            last = 2 + gap
+            alpha = np.array([[0.0], [1.0], [2.0]])
+            cexpr = cl.Expression([p[0], -3.0, p[last]])
+            con = cl.PrimalSageCone(cexpr, alpha, None, 'pu')
+            st, val = cl.Problem(cl.MIN, p[0], [con, p[last] == 1]).solve(verbose=False)
+            if st != 'solved' or not math.isfinite(val):
+                continue
+            c = np.asarray(con.c.value, dtype=float)
+            if abs(val - 2.25) > 1e-5 or not np.allclose(c, [2.25, -3.0, 1.0], atol=1e-4):
+                return ('min p0 s.t. p0 - 3 e^t + p%d e^(2t) SAGE, p%d = 1 (components p1..p%d unused): value %r, exposed c = %s; the optimum is 2.25 with c = (2.25, -3, 1)'
+                        % (last, last, last - 1, val, c.tolist()))
+            tot = sum(np.asarray(av.value, dtype=float) for av in con.age_vectors.values())
+            if np.any(tot > c + 1e-5):
+                return 'partially used Variable: the exposed AGE vectors sum to %s which exceeds the exposed c = %s' % (tot.tolist(), c.tolist())
+            for t_ in np.linspace(-3.0, 3.0, 25):
+                fv = float(c @ np.exp(alpha[:, 0] * t_))
+                if fv < -1e-5 * (1 + float(np.abs(c) @ np.exp(alpha[:, 0] * t_))):
+                    return 'partially used Variable: the signomial with the exposed coefficients %s is %g at t = %g' % (c.tolist(), fv, t_)
+    return None
+
+
 def run(ctx):
+    why = oracle_partially_used_variable(ctx.rng)
+    ctx.evaluations += 2
+    ctx.suites['partially_used_variable'] = {'cases': 2, 'failure': why}
+    if why:
+        ctx.problem('oracle', 'property fails on the implementation: ' + why, inputs={'suite': 'partially_used_variable'}, failing_input_found=True)
     why = oracle_kernel_basis_zero_rows(ctx.rng)
     ctx.evaluations += 2
     ctx.suites['kernel_basis_zero_rows'] = {'cases': 2, 'failure': why}
